@@ -148,7 +148,15 @@ partial def handle (key : Keymap.Key) (s : S) (ev : Keymap.Event) : S :=
     | .error _ => { s with unsupported := some "panic-in-parse_action_arg" }
   | .inputKey _ => s
 
-def answer (case impl : String) : String :=
+/-- the `exec=` part of an observation (`rc=… out=… exec=…`) -/
+def execPart (obs : String) : String :=
+  match obs.splitOn " exec=" with
+  | [_, e] => e
+  | _ => "?"
+
+/-- `execOnly` (stream id C07CLI, the sub-stream of C07): only the commands handed to the shell are judged — what the session
+    prints at the end is C05's and C19's subject, and a change there is not C07's alarm -/
+def answerWith (execOnly : Bool) (case impl : String) : String :=
   match case.splitOn "|" with
   | ["K", opts, items, keys] =>
     let os := (opts.splitOn ",").filter (· ≠ "")
@@ -185,7 +193,13 @@ def answer (case impl : String) : String :=
           let r := Accept.binOutput o b (fun i => String.ofList (s.items.getD i []))
           let out := String.join (r.1.map (· ++ "\n"))
           let model := s!"rc={r.2} out={hexOf out} exec={if s.execs.isEmpty then "_" else ",".intercalate s.execs}"
-          model ++ "\t" ++ (if impl == model then "ok" else "bad:binary-output-differs-from-accept-model")
+          if execOnly then
+            s!"exec={execPart model}" ++ "\t" ++
+              (if execPart impl == execPart model then "ok" else "bad:command-handed-to-the-shell-differs-from-the-expansion-of-the-template")
+          else
+            model ++ "\t" ++ (if impl == model then "ok" else "bad:binary-output-differs-from-accept-model")
   | _ => "error:bad-case\terror"
+
+def answer (case impl : String) : String := answerWith false case impl
 
 end SkimModel.Driver.C05Cli
